@@ -449,7 +449,7 @@ theorem step_basic (cfg : Cfg) (c : Nat) (op : SOp α) (w : World α) (xs : List
     show match (getV c >>= fun v => if guard_at0_0 { size := v.size, pos := i } then throwE .range else readSlot v.data i >>= fun _ => (pure () : M α Unit)) w with
          | .ok _ w' => _ | .thrown _ w' => _
     rw [bind_run, getV_run]; simp only []
-    have eg : guard_at0_0 { size := (w.hdr c).size, pos := i } = decide ((w.hdr c).size ≤ i) := rfl
+    have eg : guard_at0_0 { size := (w.hdr c).size, pos := i } = decide ((w.hdr c).size ≤ i) := by first | rfl | (simp only [guard_at0_0]; rw [Bool.eq_iff_iff]; simp; try omega)
     rw [eg]
     by_cases h : (w.hdr c).size ≤ i
     · rw [if_pos (decide_eq_true h)]; exact ⟨Basic.refl hp.vec hp.led, fun _ => hx⟩
